@@ -45,6 +45,9 @@ func runC02(p *Prog, r *Report) {
 	if want("C02.6") {
 		ruleMergedOrder(p, r, "C02.6")
 	}
+	if want("C02.7") {
+		ruleRangePredicates(p, r, "C02.7")
+	}
 }
 
 func retConstBool(val bool) InstrPred {
